@@ -59,7 +59,11 @@ type Config struct {
 	TickProb  float64 // probability per step of advancing simulated time when a ticker exists
 	MaxSteps  int
 	FSYields  bool
-	LogEvents bool
+	// UnlockYields makes every Unlock/RUnlock a scheduling point too: another task may run right after a
+	// lock was released and before the releasing task executes its next statement (exposes code that keeps
+	// using protected state after it let go of the lock).
+	UnlockYields bool
+	LogEvents    bool
 	OnStep    func(s *Sim) // invariant hook, runs on the scheduler goroutine after every grant+quiescence
 }
 
@@ -132,6 +136,9 @@ func goid() int64 {
 
 // FSYields tells the simulated file system whether to yield at every call.
 func (s *Sim) FSYields() bool { return s.cfg.FSYields }
+
+// UnlockYields tells simsync whether releasing a lock is a scheduling point.
+func (s *Sim) UnlockYields() bool { return s.cfg.UnlockYields }
 
 // Now returns the current event number and increments it: a total order over everything
 // the harness stamps.
